@@ -443,8 +443,8 @@ class Program:
         h = min(min(max(vols[(r, c)] - geo.vmin, 0.0) for r in range(geo.rows)),
                 min(max(geo.vmax - vols[(r, c + 1)], 0.0) for r in range(geo.rows)))
         v = snap_down(rng.uniform(0, h) * 0.999, self.world["regime"]) if h > 0 else 0.0
-        return {"op": "transfer", "src": li, "sw": [well_id(r, c) for r in range(geo.rows)], "dst": li,
-                "dw": [well_id(r, c + 1) for r in range(geo.rows)], "volumes": enc(float(v)), "label": "dilute",
+        return {"op": "transfer", "src": li, "sw": [geo.well_id(r, c) for r in range(geo.rows)], "dst": li,
+                "dw": [geo.well_id(r, c + 1) for r in range(geo.rows)], "volumes": enc(float(v)), "label": "dilute",
                 "intent": "ok", "wash": rng.choice([1, "flush", "reuse"])}
 
 
